@@ -1,3 +1,176 @@
 import Srctools.Wire
-/-! stub driver (echo) — replaced when the property's model exists. -/
-def main : IO Unit := Wire.main fun j => pure j
+import Srctools.Model.C08
+import Srctools.Gen.C08
+/-! Driver for the C08 model.
+requests
+  {"op":"idman","guard":b|null,"script":[["g",desired]|["d",element]…]}
+        → {"r":[ id | null …],"used":[…sorted],"pos":searchPos}      (one entry per script step)
+  {"op":"fix","init":[[var,idx]…],"script":[["s",var]|["d",var]…]}
+        → {"tables":[[[var,idx]…] …]}   (table after init, then after every step; dict order)
+  {"op":"hist","cfg":null|[b,b,b],"ops":[Op…]}
+        → {"steps":[Obs…]}  one observation per operation
+     Op   = ["newmap"] | ["ent",r,m,des,node,[solidRegs],[[var,idx]…]] | ["addent",r] | ["rment",r]
+          | ["side",r,m,des] | ["solid",r,m,des,[sideRegs]] | ["addbrush",r] | ["rmbrush",r]
+          | ["copy",r',r,des,tgt|null] | ["drop",r] | ["kid",r',r,i] | ["entat",r',m,i]
+          | ["brushat",r',m,i] | ["spawn",r',m] | ["setnode",r,node] | ["delnode",r] | ["popnode",r]
+          | ["group",r,m,des] | ["vis",r,m,des,[kidRegs]] | ["fxset",r,var] | ["fxdel",r,var]
+          | ["parse",Doc] | ["failsolid",m]
+     node = null | "raw" | int
+     Doc  = {"vis":[[id,nkids]…],"world":id,"wsolids":[[id,[sideIds]]…],"groups":[ids],
+             "ents":[[id,node,[[id,[sideIds]]…],[[var,idx]…]]…]}
+     Obs  = {"maps":[{"used":[[…]×6],"ents":[ObjDump…],"brushes":[ObjDump…],"spawn":ObjDump}…],
+             "regs":[[r,ObjDump]…]}
+     ObjDump = [kind,id,node|null,[[var,idx]…],[ObjDump kids…]]
+-/
+open Lean C08
+
+def jInt (i : Int) : Json := Json.num (JsonNumber.fromInt i)
+def jNat (n : Nat) : Json := Json.num (JsonNumber.fromNat n)
+
+def insertSorted (x : Int) : List Int → List Int
+  | [] => [x]
+  | y :: ys => if x < y then x :: y :: ys else if x = y then y :: ys else y :: insertSorted x ys
+
+def sortDedup (l : List Int) : List Int := l.foldl (fun acc x => insertSorted x acc) []
+
+def pairList (j : Json) : Except String (List (Nat × Int)) := do
+  let a ← j.getArr?
+  a.toList.mapM fun p => do
+    let q ← p.getArr?
+    pure (← (q[0]!).getNat?, ← (q[1]!).getInt?)
+
+def jFix (t : Fix) : Json := Json.arr (t.map fun e => Json.arr #[jNat e.1, jInt e.2]).toArray
+
+def nodeOf (j : Json) : Except String NodeArg :=
+  if j.isNull then pure .absent
+  else match j with
+    | .str _ => pure .raw
+    | _ => do pure (.int (← j.getInt?))
+
+def solidDoc (j : Json) : Except String SolidDoc := do
+  let a ← j.getArr?
+  pure { id := ← (a[0]!).getInt?, sides := ← Wire.intList (a[1]!) }
+
+def docOf (j : Json) : Except String Doc := do
+  let vis ← (← (← j.getObjVal? "vis").getArr?).toList.mapM fun p => do
+    let q ← p.getArr?
+    pure (← (q[0]!).getInt?, ← (q[1]!).getNat?)
+  let ents ← (← (← j.getObjVal? "ents").getArr?).toList.mapM fun e => do
+    let a ← e.getArr?
+    pure ({ id := ← (a[0]!).getInt?, node := ← nodeOf (a[1]!),
+            solids := ← (← (a[2]!).getArr?).toList.mapM solidDoc, fix := ← pairList (a[3]!) } : EntDoc)
+  pure { vis := vis, worldId := ← (← j.getObjVal? "world").getInt?,
+         worldSolids := ← (← (← j.getObjVal? "wsolids").getArr?).toList.mapM solidDoc,
+         groups := ← Wire.intList (← j.getObjVal? "groups"), ents := ents }
+
+def tgtOf (j : Json) : Except String (Option Nat) :=
+  if j.isNull then pure none else do pure (some (← j.getNat?))
+
+def opOf (j : Json) : Except String Op := do
+  let a ← j.getArr?
+  let name ← (a[0]!).getStr?
+  let n (i : Nat) : Except String Nat := (a[i]!).getNat?
+  let z (i : Nat) : Except String Int := (a[i]!).getInt?
+  match name with
+  | "newmap" => pure .newmap
+  | "ent" => pure (.ent (← n 1) (← n 2) (← z 3) (← nodeOf (a[4]!)) (← Wire.natList (a[5]!)) (← pairList (a[6]!)))
+  | "addent" => pure (.addent (← n 1))
+  | "rment" => pure (.rment (← n 1))
+  | "side" => pure (.side (← n 1) (← n 2) (← z 3))
+  | "solid" => pure (.solid (← n 1) (← n 2) (← z 3) (← Wire.natList (a[4]!)))
+  | "addbrush" => pure (.addbrush (← n 1))
+  | "rmbrush" => pure (.rmbrush (← n 1))
+  | "copy" => pure (.copy (← n 1) (← n 2) (← z 3) (← tgtOf (a[4]!)))
+  | "drop" => pure (.drop (← n 1))
+  | "kid" => pure (.kid (← n 1) (← n 2) (← n 3))
+  | "entat" => pure (.entat (← n 1) (← n 2) (← n 3))
+  | "brushat" => pure (.brushat (← n 1) (← n 2) (← n 3))
+  | "spawn" => pure (.spawn (← n 1) (← n 2))
+  | "setnode" => pure (.setnode (← n 1) (← nodeOf (a[2]!)))
+  | "delnode" => pure (.delnode (← n 1))
+  | "popnode" => pure (.popnode (← n 1))
+  | "group" => pure (.group (← n 1) (← n 2) (← z 3))
+  | "vis" => pure (.vis (← n 1) (← n 2) (← z 3) (← Wire.natList (a[4]!)))
+  | "fxset" => pure (.fxset (← n 1) (← n 2))
+  | "fxdel" => pure (.fxdel (← n 1) (← n 2))
+  | "parse" => pure (.parse (← docOf (a[1]!)))
+  | "failsolid" => pure (.failsolid (← n 1))
+  | _ => throw s!"unknown history op {name}"
+
+def dumpObj (s : St) : Nat → Nat → Json
+  | 0, _ => Json.null
+  | fuel + 1, h =>
+    match s.objs h with
+    | none => Json.null
+    | some o =>
+      Json.arr #[jNat o.kind.code, jInt o.id,
+        (match o.node with | some n => jInt n | none => Json.null),
+        jFix o.fix, Json.arr (o.kids.map (dumpObj s fuel)).toArray]
+
+def allKinds : List Kind := [.ent, .solid, .face, .group, .vis, .node]
+
+def obsOf (s : St) : Json :=
+  let maps := (List.range s.nmaps).map fun m =>
+    Json.mkObj [
+      ("used", Json.arr (allKinds.map fun k => Wire.ofIntList (sortDedup (s.mans m k).used)).toArray),
+      ("ents", Json.arr ((s.ents m).map (dumpObj s 12)).toArray),
+      ("brushes", Json.arr ((s.brushes m).map (dumpObj s 12)).toArray),
+      ("spawn", dumpObj s 12 (s.spawn m))]
+  let regs := (sortDedup (s.regList.map Int.ofNat)).filterMap fun r =>
+    match s.regs r.toNat with
+    | some h => some (Json.arr #[jInt r, dumpObj s 12 h])
+    | none => none
+  Json.mkObj [("maps", Json.arr maps.toArray), ("regs", Json.arr regs.toArray)]
+
+def cfgOf (j : Json) : Except String Cfg :=
+  if j.isNull then pure Gen.C08.cfg
+  else do
+    let a ← j.getArr?
+    pure { removeEntDiscardsEntId := ← (a[0]!).getBool?, removeEntDiscardsNodeId := ← (a[1]!).getBool?,
+           discardGuard := ← (a[2]!).getBool? }
+
+def handle (j : Json) : Except String Json := do
+  let op ← j.getObjValAs? String "op"
+  match op with
+  | "idman" =>
+    let gj ← j.getObjVal? "guard"
+    let guard ← if gj.isNull then pure Gen.C08.cfg.discardGuard else gj.getBool?
+    let script ← (← j.getObjVal? "script").getArr?
+    let mut m := IDMan.empty
+    let mut out : Array Json := #[]
+    for st in script do
+      let a ← st.getArr?
+      let k ← (a[0]!).getStr?
+      let v ← (a[1]!).getInt?
+      if k == "g" then
+        let r := m.getId v
+        m := r.2
+        out := out.push (jInt r.1)
+      else
+        m := m.discard guard v
+        out := out.push Json.null
+    pure (Json.mkObj [("r", Json.arr out), ("used", Wire.ofIntList (sortDedup m.used)), ("pos", jInt m.searchPos)])
+  | "fix" =>
+    let init ← pairList (← j.getObjVal? "init")
+    let script ← (← j.getObjVal? "script").getArr?
+    let mut t := fxInit init
+    let mut out : Array Json := #[jFix t]
+    for st in script do
+      let a ← st.getArr?
+      let k ← (a[0]!).getStr?
+      let v ← (a[1]!).getNat?
+      t := if k == "s" then fxSet t v else fxDel t v
+      out := out.push (jFix t)
+    pure (Json.mkObj [("tables", Json.arr out)])
+  | "hist" =>
+    let c ← cfgOf (← j.getObjVal? "cfg")
+    let ops ← (← (← j.getObjVal? "ops").getArr?).toList.mapM opOf
+    let mut s := St.init
+    let mut out : Array Json := #[]
+    for o in ops do
+      s := step c s o
+      out := out.push (obsOf s)
+    pure (Json.mkObj [("steps", Json.arr out)])
+  | _ => throw s!"unknown op {op}"
+
+def main : IO Unit := Wire.main handle
